@@ -19,6 +19,7 @@ import (
 	"math/rand"
 	"net/http"
 	"net/http/httptest"
+	"os"
 	"runtime"
 	"sort"
 	"strings"
@@ -52,7 +53,17 @@ func init() {
 
 // Spec registers the check.
 func Spec() ev.Spec {
-	return ev.Spec{Prop: "C11", Level: "exploration", Workers: -1, Race: true, Body: body}
+	return ev.Spec{Prop: "C11", Level: "exploration", Workers: -1, Race: true, Body: body, WorkerEnv: func(i int) []string {
+		// every third worker process runs east of UTC, every third west of it (a service's time zone is its operator's
+		// business; an event's block time is the stored one wherever the process runs)
+		switch i % 3 {
+		case 1:
+			return []string{"TZ=Asia/Kolkata"}
+		case 2:
+			return []string{"TZ=America/St_Johns"}
+		}
+		return []string{"TZ=UTC"}
+	}}
 }
 
 // behaviours of a recording channel
@@ -1159,7 +1170,10 @@ func clip(s string) string {
 }
 
 func body(r *ev.Run) {
-	r.Rule("histories = seeded random histories of the C01 generator (forks, orphans, late parents, duplicates, forbidden hashes, all work classes) with store failures injected at repository.Headers.AddHeaderToDatabase (and UpdateState in every 6th history) with probability {0, 0.05, 0.15} per submission; channel set on the real Notifier = 3 recording channels whose behaviours per history are 3 of {ok, error, slow, blocked until released after ingestion} in random order + real websocket channel over a recording publisher that fails every n-th publish (n in {never,2,3}) + real WebhooksService over the SQL repository with three healthy (registered with bearer, custom-header and no authorisation; one of them answering 500 to every third call, never twice in a row) and an always-failing webhook (URLs with upper-case letters, a trailing slash and a query: a POST to any other URL is reported); pairs of webhooks whose URLs differ by a trailing slash, one of them revoked (the other keeps getting its events); 500 / 501 webhooks registered at once (exactly one event each); a webhook whose endpoint never answers next to a healthy one on the same host (8-12 headers: the healthy one gets each once); re-registration cases: a webhook is switched off by max_tries failures, its receiver recovers, it is registered again and must get exactly one event for every header stored afterwards; a share of the histories runs with the production webhook client (transports/http/client) posting to real HTTP servers, the failing one answering 500 / dropping the connection after reading the request / answering 503 in turn; bursts of 300-500 headers while the websocket publisher is blocked; every 6th fault-free submission is made by two goroutines at once (two peers delivering the same header; the first duplicate look-up waits up to 1.5 ms for the second to arrive). evaluations = histories; distinct = distinct (behaviour assignment, history shape); non-trivial = history with a fork, orphan, duplicate or a non-stored submission.")
+	if tz := os.Getenv("TZ"); tz != "" {
+		r.Count("worker_processes_in_time_zone_"+tz, 1)
+	}
+	r.Rule("a third of the worker processes run in the time zone Asia/Kolkata, a third in America/St_Johns (the event's block time is compared with the stored one to the nanosecond). histories = seeded random histories of the C01 generator (forks, orphans, late parents, duplicates, forbidden hashes, all work classes) with store failures injected at repository.Headers.AddHeaderToDatabase (and UpdateState in every 6th history) with probability {0, 0.05, 0.15} per submission; channel set on the real Notifier = 3 recording channels whose behaviours per history are 3 of {ok, error, slow, blocked until released after ingestion} in random order + real websocket channel over a recording publisher that fails every n-th publish (n in {never,2,3}) + real WebhooksService over the SQL repository with three healthy (registered with bearer, custom-header and no authorisation; one of them answering 500 to every third call, never twice in a row) and an always-failing webhook (URLs with upper-case letters, a trailing slash and a query: a POST to any other URL is reported); pairs of webhooks whose URLs differ by a trailing slash, one of them revoked (the other keeps getting its events); 500 / 501 webhooks registered at once (exactly one event each); a webhook whose endpoint never answers next to a healthy one on the same host (8-12 headers: the healthy one gets each once); re-registration cases: a webhook is switched off by max_tries failures, its receiver recovers, it is registered again and must get exactly one event for every header stored afterwards; a share of the histories runs with the production webhook client (transports/http/client) posting to real HTTP servers, the failing one answering 500 / dropping the connection after reading the request / answering 503 in turn; bursts of 300-500 headers while the websocket publisher is blocked; every 6th fault-free submission is made by two goroutines at once (two peers delivering the same header; the first duplicate look-up waits up to 1.5 ms for the second to arrive). evaluations = histories; distinct = distinct (behaviour assignment, history shape); non-trivial = history with a fork, orphan, duplicate or a non-stored submission.")
 	r.Assume("'stored' = Chains.Add returned without error", "the stored header = its headers row (immutable columns at the end of the history, header_state right after Add returned)",
 		"logical quiescence = goroutine count back at the pre-history baseline plus the deliveries parked in blocked channels (or, if some unrelated long-lived goroutine appeared, every expected delivery recorded and a stable goroutine count)",
 		"the always-failing webhook may be deactivated by the service: only 'at most one call per stored header, none otherwise' is required of it", "SQLite only; built with -race")
